@@ -64,7 +64,7 @@ KINDS = ('ioerr', 'eof', 'foreign', 'kbd', 'base')
 
 
 def make_exc(kind, variant=0):
-    from flipjump.utils.exceptions import IODeviceException, IOReadOnEOF
+    from flipjump.utils.exceptions import IODeviceException, IOReadOnEOF, BrokenIOUsed, IncompleteOutput
 
     class PlannedIOError(IODeviceException):
         pass
@@ -73,7 +73,9 @@ def make_exc(kind, variant=0):
         pass
 
     if kind == 'ioerr':
-        return PlannedIOError('planned device failure')
+        # every IO error class of the library (and a device's own subclass) is a library IO error
+        return (PlannedIOError('planned device failure'), IncompleteOutput('planned incomplete output'), BrokenIOUsed('planned broken io'),
+                IODeviceException('planned io-device exception'))[variant % 4]
     if kind == 'eof':
         return IOReadOnEOF('planned eof')
     if kind == 'foreign':
